@@ -116,7 +116,9 @@ func TestVerifC14_kyber_poly(t *testing.T) {
 	r.Rule("polynomials with |c| <= q: constants {0,+-1,+-q,+-(q-1),+-q/2}, alternating +-q, ramps, unit vectors e_i * {1,q,-q} (every 8th i in the quick tier, all 256 in the thorough tier), 8 SHAKE polynomials; " +
 		"per polynomial: NTT, InvNTT(Normalize(NTT)), Tangle/Detangle round trips, Pack/Unpack; MulHat / Add / Sub against every key polynomial; " +
 		"BarrettReduce and Normalize on every int16 value at every residue of the coefficient index mod 16 (complete per-coefficient domain); Unpack of every 12-bit value; " +
-		"DeriveNoise2/3, DeriveUniform and (when available) PolyDeriveUniformX4 on SEEDS(32) x nonce/coordinate alphabets")
+		"DeriveNoise2/3, DeriveUniform and (when available) PolyDeriveUniformX4 on SEEDS(32) x nonce/coordinate alphabets; " +
+		"rejection-sampling boundaries of DeriveUniform: 1024 streams (fixed seed, x<64, y<16) are classified by an independent Parse(SHAKE128) scan; every stream that needs a fourth SHAKE block and the first 6 (24 thorough) " +
+		"with a 12-bit candidate equal to q, equal to q-1, or with an acceptable second candidate dropped after the 256th coefficient go through DeriveUniform (cross-configuration) and, where the four-way sampler exists, through it in each lane position (in-process)")
 	r.NotExhaustive("declared polynomial alphabet; the per-coefficient sweeps of BarrettReduce/Normalize/Unpack are complete")
 
 	hats := make([]Poly, len(key)) // NTT of the key polynomials, normalized: legal MulHat operands
@@ -142,6 +144,54 @@ func TestVerifC14_kyber_poly(t *testing.T) {
 	}
 	for i := range seeds {
 		jobs = append(jobs, job{"sample", i})
+	}
+	// Rejection-sampling boundaries of Parse: an independent scan (x/crypto SHAKE-128) of the streams (bseed, x, y),
+	// x < 64, y < 16, classifies each stream; the first few of every rare class go through the transcript and, where the
+	// four-way sampler exists, through it in every lane position next to ordinary streams.
+	var bseed [32]byte
+	copy(bseed[:], verifmc.Shake("c14-kyber-uniform-boundary", 32))
+	type bstream struct {
+		x, y  uint8
+		class string
+	}
+	var bounds []bstream
+	var ordinary [][2]uint8
+	perClass := map[string]int{}
+	for x := 0; x < 64; x++ {
+		for y := 0; y < 16; y++ {
+			_, eq, eqm1, blocks, drop := verifc14.KyberUniform(bseed[:], uint8(x), uint8(y))
+			cls := ""
+			switch {
+			case blocks >= 4:
+				cls = "four-blocks"
+			case eq > 0 && eqm1 > 0:
+				cls = "cand=q+cand=q-1"
+			case eq > 0:
+				cls = "cand=q"
+			case eqm1 > 0:
+				cls = "cand=q-1"
+			case drop:
+				cls = "valid-second-candidate-dropped"
+			}
+			if cls == "" {
+				if len(ordinary) < 3 {
+					ordinary = append(ordinary, [2]uint8{uint8(x), uint8(y)})
+				}
+				continue
+			}
+			limit := r.Pick(6, 24)
+			if cls == "four-blocks" {
+				limit = 1 << 20 // all of them
+			}
+			if perClass[cls] < limit {
+				perClass[cls]++
+				bounds = append(bounds, bstream{uint8(x), uint8(y), cls})
+			}
+		}
+	}
+	r.Set("uniform_boundary_streams", perClass)
+	for i := range bounds {
+		jobs = append(jobs, job{"boundary", i})
 	}
 	verifmc.ParallelFor(len(jobs), func(ji int) {
 		j := jobs[ji]
@@ -258,6 +308,66 @@ func TestVerifC14_kyber_poly(t *testing.T) {
 				d.Bytes("normalized", c14Hat(&p))
 				d.Exec(2)
 			})
+		case "boundary":
+			b := bounds[j.i]
+			c.Case(fmt.Sprintf("DeriveUniform-boundary#%s/x=%d/y=%d", b.class, b.x, b.y), func(d *verifc14.D) {
+				var p Poly
+				p.DeriveUniform(&bseed, b.x, b.y)
+				d.Bytes("uniform", c14Hat(&p))
+				d.Exec(1)
+				r.Count("boundary_streams/"+b.class, 1)
+				// bind the scanner: Parse transcribed from the specification gives the same polynomial
+				coef, _, _, _, _ := verifc14.KyberUniform(bseed[:], b.x, b.y)
+				var want Poly
+				copy(want[:], coef[:])
+				want.Tangle()
+				if string(c14Hat(&want)) != string(c14Hat(&p)) {
+					r.Violation("C14|kyber.DeriveUniform|differs-from-independent-Parse|"+c14Backend(), fmt.Sprintf("DeriveUniform-boundary#%s/x=%d/y=%d", b.class, b.x, b.y),
+						fmt.Sprintf("DeriveUniform(boundary seed, %d, %d) [%s] differs from Parse(SHAKE128) computed with x/crypto", b.x, b.y, b.class), nil)
+				}
+				if DeriveX4Available && len(ordinary) == 3 {
+					for lane := 0; lane < 4; lane++ { // the boundary stream in each lane, ordinary streams in the others
+						var ps [4]Poly
+						var xs, ys [4]uint8
+						o := 0
+						for k := 0; k < 4; k++ {
+							if k == lane {
+								xs[k], ys[k] = b.x, b.y
+							} else {
+								xs[k], ys[k] = ordinary[o][0], ordinary[o][1]
+								o++
+							}
+						}
+						PolyDeriveUniformX4([4]*Poly{&ps[0], &ps[1], &ps[2], &ps[3]}, &bseed, xs, ys)
+						for k := 0; k < 4; k++ {
+							var q Poly
+							q.DeriveUniform(&bseed, xs[k], ys[k])
+							if string(c14Hat(&q)) != string(c14Hat(&ps[k])) {
+								r.Violation("C14|kyber.PolyDeriveUniformX4|differs-from-DeriveUniform|"+c14Backend(), fmt.Sprintf("DeriveUniform-boundary#%s/x=%d/y=%d", b.class, b.x, b.y),
+									fmt.Sprintf("PolyDeriveUniformX4 lane %d differs from DeriveUniform(boundary seed, %d, %d) with the %s stream in lane %d", k, xs[k], ys[k], b.class, lane), nil)
+							}
+							r.Count("x4_lanes_compared", 1)
+						}
+					}
+					// and four boundary streams together (consecutive ones of the list)
+					var ps [4]Poly
+					var xs, ys [4]uint8
+					for k := 0; k < 4; k++ {
+						bb := bounds[(j.i+k)%len(bounds)]
+						xs[k], ys[k] = bb.x, bb.y
+					}
+					PolyDeriveUniformX4([4]*Poly{&ps[0], &ps[1], &ps[2], &ps[3]}, &bseed, xs, ys)
+					for k := 0; k < 4; k++ {
+						var q Poly
+						q.DeriveUniform(&bseed, xs[k], ys[k])
+						if string(c14Hat(&q)) != string(c14Hat(&ps[k])) {
+							r.Violation("C14|kyber.PolyDeriveUniformX4|differs-from-DeriveUniform|"+c14Backend(), fmt.Sprintf("DeriveUniform-boundary#%s/x=%d/y=%d", b.class, b.x, b.y),
+								fmt.Sprintf("PolyDeriveUniformX4 lane %d differs from DeriveUniform(boundary seed, %d, %d) among four boundary streams", k, xs[k], ys[k]), nil)
+						}
+						r.Count("x4_lanes_compared", 1)
+					}
+				}
+			})
 		case "sample":
 			seed := seeds[j.i]
 			c.Case(fmt.Sprintf("Sample#seed%d", j.i), func(d *verifc14.D) {
@@ -300,6 +410,9 @@ func TestVerifC14_kyber_poly(t *testing.T) {
 	})
 	if DeriveX4Available {
 		r.RequireCounter("x4_lanes_compared", 4)
+	}
+	for _, cls := range []string{"four-blocks", "cand=q", "cand=q-1", "valid-second-candidate-dropped"} {
+		r.RequireCounter("boundary_streams/"+cls, 3)
 	}
 	c.Finish(500)
 }
